@@ -112,7 +112,7 @@ func c02Programs(thorough bool) ([]aggProg, [][]string, [][]string) {
 func c02(r *rt.Run) {
 	r.Assumptions = []string{
 		"reference: per rule, the set of distinct assignments to the body's named variables over the completed lower strata, grouped and folded (verifmc/oracle)",
-		"collected lists compared as multisets; wildcards inside aggregated bodies are outside the alphabet (multiplicity undocumented)",
+		"collected lists compared as multisets; with wildcards in an aggregated body only multiplicity-independent observations are compared (which groups exist; min, max, distinct-collect over named variables): how often a solution counts is undocumented there",
 	}
 	if r.Replay != "" {
 		_, w := rt.ReadReplay(r.Replay)
@@ -169,8 +169,9 @@ func c02(r *rt.Run) {
 		}
 	})
 	c02KeyFamily(r)
+	c02WildFamily(r)
 	r.Finish("pool A: every aggregating rule (10 bodies x reducers count,sum,min,max,avg,collect_distinct,collect x key {X},{Y},{}) alone, and every pair of rules over a reduced reducer set, " +
-		"x every p subset of {1,2,3}^2 up to a size bound x q subsets; group-key values: every ordered pair of a 44-constant universe of mutually confusable constants as keys of 4 aggregating rules; non-trivial = some group has >=2 solutions; distinct by construction")
+		"x every p subset of {1,2,3}^2 up to a size bound x q subsets; group-key values: every ordered pair of a 44-constant universe of mutually confusable constants as keys of 4 aggregating rules; wildcard bodies: 14 rules with one to three wildcards over s/3 x every non-empty subset of {1,2}^3 x 3 side relations; non-trivial = some group has >=2 solutions; distinct by construction")
 }
 
 func c02Case(r *rt.Run, src string, edbText []string, kind string) {
